@@ -245,6 +245,10 @@ def build_config(config, filename=None):
         # Drop unsupported arguments from config rather than getting a
         # "unsupported keyword" exception
         config = {k: config[k] for k in config if k in supported_args}
+        # "unit" is not only supported by the SVG serializer: do not override
+        # the serializer's default unit if the user did not specify any unit
+        if config.get('unit') is None:
+            config.pop('unit', None)
     return config
 
 
